@@ -116,10 +116,15 @@ func TestCheck(t *testing.T) {
 	// inbound and end-to-end first: they are the small parts and must not be the ones a budget cut-off loses
 	timed("fixed", func() bool { return outboundFixed(r) })
 	timed("inbound", func() bool { return inbound(t, r, deadline, workers) })
+	// number / order / grouping of HMAC routes and of signed targets in one configuration, reloads between configurations
+	timed("multi_inbound", func() bool { return multiInbound(t, r, deadline, workers) })
+	timed("multi_outbound", func() bool { return multiOutbound(t, r, deadline, workers, ties) })
+	timed("multi_e2e", func() bool { return multiE2E(t, r, deadline, workers, ties) })
 	timed("e2e", func() bool { return endToEnd(t, r, deadline, workers, ties) })
 	timed("outbound", func() bool { return outbound(r, deadline, workers, ties) })
 	r.Set("phase_wall_s", phases)
-	for _, class := range []string{"out:signed-after-tie", "out:not-sent", "in:202", "in:401", "e2e:pushed", "e2e:not-pushed"} {
+	for _, class := range []string{"out:signed-after-tie", "out:not-sent", "in:202", "in:401", "e2e:pushed", "e2e:not-pushed",
+		"min:boot:202", "min:boot:401", "min:reloaded:202", "min:reloaded:401", "mout:signed", "mout:not-sent"} {
 		if v, ok := samples.val[class]; ok {
 			r.Sample(v)
 		}
